@@ -578,8 +578,9 @@ fn minimise_inner(case: &Case, class: &str) -> Case {
             best = c;
         }
     }
-    // 2. stdin script, line by line
-    {
+    // 2. stdin script, line by line (not when other runs are compared with this one: their
+    //    scripts are derived from the same lines and would no longer correspond)
+    if best.alts.is_empty() {
         let bytes = best.scn.stdin.bytes.0.clone();
         let mut lines: Vec<Vec<u8>> = Vec::new();
         let mut cur = Vec::new();
